@@ -33,6 +33,10 @@ pub enum Step {
     /// bit i set: node i on side A; messages across sides are dropped at delivery
     Partition { mask: u8 },
     Heal,
+    /// cut the links between one current leader (pick mod #leaders) and everybody else
+    IsolateLeader { pick: u8 },
+    /// cut the links between this node and everybody else (other cuts stay)
+    Isolate { node: u8 },
     /// nth = None: between steps; Some(k): inside the k-th mutating syscall of that node from now
     Crash { node: u8, nth: Option<u8>, bytes: Option<u8>, cut: u8 },
     Restart { node: u8 },
@@ -217,8 +221,8 @@ impl Scenario for C01 {
     }
     fn runs(&self, tier: Tier) -> u64 {
         match tier {
-            Tier::Quick => 6000,
-            Tier::Thorough => 200_000,
+            Tier::Quick => 20000,
+            Tier::Thorough => 600_000,
         }
     }
 
@@ -283,6 +287,95 @@ impl Scenario for C01 {
                 Step::PreVote { node: rng.below(nn) as u8 }
             };
             steps.push(s);
+        }
+        // In most runs splice in a few "deposed leader" fragments: a leader is cut off, accepts
+        // proposals nobody else sees, somebody else is elected and does the same, the cut is
+        // healed and an old leader may come back — the situations in which the commit rule,
+        // the vote's log check and conflict truncation have to do their work.
+        if rng.chance(2, 3) {
+            for _ in 0..rng.range(1, 4) {
+                let mut frag = vec![Step::IsolateLeader { pick: rng.below(4) as u8 }];
+                for _ in 0..rng.range(1, 2) {
+                    frag.push(Step::Propose { pick: rng.below(4) as u8, payload: rng.below(1 << 20) as u32 });
+                }
+                if rng.chance(1, 2) {
+                    frag.push(Step::Heartbeat { pick: rng.below(4) as u8 });
+                }
+                frag.push(Step::Timeout { node: rng.below(nn) as u8 });
+                for _ in 0..rng.range(2, 8) {
+                    frag.push(Step::Deliver { pick: 0 });
+                }
+                if rng.chance(1, 2) {
+                    frag.push(Step::Heartbeat { pick: rng.below(4) as u8 });
+                    frag.push(Step::Propose { pick: rng.below(4) as u8, payload: rng.below(1 << 20) as u32 });
+                }
+                if rng.chance(2, 3) {
+                    frag.push(Step::Heal);
+                }
+                if rng.chance(1, 2) {
+                    frag.push(Step::Timeout { node: rng.below(nn) as u8 });
+                    for _ in 0..rng.range(2, 6) {
+                        frag.push(Step::Deliver { pick: 0 });
+                    }
+                }
+                let at = rng.usize_below(steps.len() + 1);
+                steps.splice(at..at, frag);
+            }
+        }
+        // A third of the runs additionally get one "two deposed leaders" fragment (the
+        // shape of Figure 8 of the Raft paper, with every count and choice randomised):
+        // a leads and holds an entry nobody saw; b leads the next term and does the same;
+        // a comes back, replicates its old entry while holding a newer local one; b comes
+        // back again. Whether anything bad follows depends on the commit rule, the log
+        // check in votes and conflict truncation — which is the point.
+        if rng.chance(1, 3) {
+            let a = rng.below(nn) as u8;
+            let b = ((u64::from(a) + 1 + rng.below(nn - 1)) % nn) as u8;
+            let mut f: Vec<Step> = Vec::new();
+            let mut deliver = |f: &mut Vec<Step>, rng: &mut Rng, lo: u64, hi: u64| {
+                for _ in 0..rng.range(lo, hi) {
+                    f.push(Step::Deliver { pick: 0 });
+                }
+            };
+            let lead = |f: &mut Vec<Step>, rng: &mut Rng, who: u8| {
+                f.push(Step::Timeout { node: who });
+                for _ in 0..rng.range(3, 6) {
+                    f.push(Step::Deliver { pick: 0 });
+                }
+                for _ in 0..rng.range(1, 2) {
+                    f.push(Step::Heartbeat { pick: 0 });
+                    for _ in 0..rng.range(2, 5) {
+                        f.push(Step::Deliver { pick: 0 });
+                    }
+                }
+            };
+            f.push(Step::Heal);
+            lead(&mut f, rng, a);
+            f.push(Step::IsolateLeader { pick: 0 });
+            f.push(Step::Propose { pick: 0, payload: rng.below(1 << 20) as u32 });
+            lead(&mut f, rng, b);
+            f.push(Step::Isolate { node: b });
+            f.push(Step::Propose { pick: 1, payload: rng.below(1 << 20) as u32 });
+            f.push(Step::Propose { pick: 0, payload: rng.below(1 << 20) as u32 });
+            f.push(Step::Heal);
+            f.push(Step::Isolate { node: b });
+            lead(&mut f, rng, a);
+            if rng.chance(1, 2) {
+                f.push(Step::Heartbeat { pick: 0 });
+                deliver(&mut f, rng, 2, 4);
+            }
+            f.push(Step::Heartbeat { pick: rng.below(2) as u8 });
+            f.push(Step::Propose { pick: rng.below(2) as u8, payload: rng.below(1 << 20) as u32 });
+            if rng.chance(1, 2) {
+                f.push(Step::Dup { pick: 0 });
+            }
+            deliver(&mut f, rng, 1, 4);
+            f.push(Step::Heal);
+            f.push(Step::Isolate { node: a });
+            lead(&mut f, rng, b);
+            deliver(&mut f, rng, 2, 6);
+            let at = rng.usize_below(steps.len() + 1);
+            steps.splice(at..at, f);
         }
         Case {
             n,
@@ -465,6 +558,35 @@ impl Scenario for C01 {
                 },
                 Step::Heal => {
                     cl.net.lock().unwrap().blocked.clear();
+                },
+                Step::IsolateLeader { pick } => {
+                    let ls = cl.leaders();
+                    if !ls.is_empty() {
+                        let l = ls[*pick as usize % ls.len()];
+                        let mut g = cl.net.lock().unwrap();
+                        for o in 0..n {
+                            if o != l {
+                                g.blocked.push((ids[l].clone(), ids[o].clone()));
+                                g.blocked.push((ids[o].clone(), ids[l].clone()));
+                            }
+                        }
+                        drop(g);
+                        ctx.event(&format!("{si}: leader {} isolated", ids[l]));
+                        ctx.fault_fired("leader_isolated");
+                        ctx.fp("isolate_leader");
+                    }
+                },
+                Step::Isolate { node } => {
+                    let l = *node as usize % n;
+                    let mut g = cl.net.lock().unwrap();
+                    for o in 0..n {
+                        if o != l {
+                            g.blocked.push((ids[l].clone(), ids[o].clone()));
+                            g.blocked.push((ids[o].clone(), ids[l].clone()));
+                        }
+                    }
+                    drop(g);
+                    ctx.fault_fired("node_isolated");
                 },
                 Step::Crash { node, nth, bytes, cut } => {
                     let i = *node as usize % n;
